@@ -584,6 +584,27 @@ fn run_qv_collect(ctx: &mut Ctx, gen: &Gen, ty: u8, offset: i8) {
                 }
                 ctx.obs_seq("iter", "", 0, &want, || q.iter().collect::<Vec<u8>>());
                 ctx.obs_seq("into_iter", "", 0, &want, || q.clone().into_iter().collect::<Vec<u8>>());
+                if n >= 100 {
+                    // iteration through the adaptors std derives from next / nth / size_hint
+                    for a in [0usize, 1, 127, 128, 129, 255, 256, 257] {
+                        for b in [0usize, 1, 3, 127, 128] {
+                            if a <= n {
+                                ctx.obs("iter: next x a, then nth(b)", "", 0, a as u64, b as u64, Exp::Is(want.get(a + b).copied()), || {
+                                    let mut it = q.iter();
+                                    for _ in 0..a {
+                                        it.next();
+                                    }
+                                    it.nth(b)
+                                });
+                            }
+                        }
+                    }
+                    let every3: Vec<u8> = want.iter().copied().step_by(3).collect();
+                    ctx.obs_seq("iter().step_by(3)", "", 0, &every3, || q.iter().step_by(3).collect::<Vec<u8>>());
+                    let skipped: Vec<u8> = want.iter().copied().skip(130).collect();
+                    ctx.obs_seq("into_iter().skip(130)", "", 0, &skipped, || q.clone().into_iter().skip(130).collect::<Vec<u8>>());
+                    ctx.obs("iter().count()", "", 0, 0, 0, Exp::Is(n), || q.iter().count());
+                }
                 let qb = ctx.total("QVectorBuilder::from_iter", "", ty as u128, 0, 0, || vs.iter().copied().collect::<QVectorBuilder>().build());
                 if let Some(qb) = qb {
                     ctx.obs("builder collect == vector collect", "", 0, 0, 0, Exp::Is(true), || qb == q);
